@@ -3,6 +3,7 @@
 Require Import MV.Base.Prelude MV.Base.CInt MV.Base.Index MV.Base.BorderSpec.
 Require Import MV.Gen.Scalar_gen MV.Model.Filter MV.Model.Morph.
 Require Import MV.Proof.BorderNearest MV.Proof.ScalarSat MV.Proof.MorphProof.
+Require Import MV.Model.MorphFast MV.Proof.MorphLaws MV.Proof.MorphFastProof MV.Gen.FastPath_gen MV.Proof.FastPathTie.
 
 Theorem C01_erode_sub_saturates : forall t a b,
   wf_ity t -> in_range t a -> 0 <= b <= tmax t -> b <> tmin t -> erode_sub t a b = sat t (a - b).
@@ -35,3 +36,20 @@ Theorem C01_dilate_is_max_of_contributions : forall d f bc i,
   maxl (dmin d) (map snd (filter (fun u => fst u =? i)
                                  (flat_map (contribs d f bc) (all_positions (shape f))))).
 Proof. exact dilate_generic_char. Qed.
+
+(* path independence: the 2-D boolean fast path of _morph.cpp (taken for C-contiguous boolean images; Model/MorphFast.v) computes
+   exactly what the generic iterator path computes -- every image, every element (even-sized, asymmetric, without its centre,
+   larger than the image), borders included *)
+Theorem C01_fast_path_equals_generic_path : forall a bc Ny Nx By Bx,
+  shape a = [Ny; Nx] -> shape_ok [Ny; Nx] -> bimg [Ny; Nx] (data a) -> shape bc = [By; Bx] -> 1 <= By -> 1 <= Bx ->
+  fast2d true a bc = erode_generic DBool a bc /\ fast2d false a bc = dilate_generic DBool a bc.
+Proof. exact fast_path_is_generic. Qed.
+
+(* ... and that fast-path model performs exactly the cell updates of the loops RE-TRANSLATED from _morph.cpp on this run
+   (Gen/FastPath_gen.v: row clamp, segment bounds x0 / x1, the three column loops of each branch) *)
+Theorem C01_fast_path_model_is_the_translated_loops : forall is_er Ny Nx pos,
+  gen_fb_updates is_er Ny Nx pos = fb_updates is_er Ny Nx pos.
+Proof. exact gen_updates_are_model_updates. Qed.
+
+Theorem C01_fast_path_seed_and_member_list_recognised : gen_fb_seed_recognised = true.
+Proof. exact gen_seed_recognised. Qed.
